@@ -151,7 +151,48 @@ fn state_code(b: &Board) -> &'static str {
 }
 
 /// PO line: everything observable about one position, plus agreement with the same position rebuilt from its text
+/// near-equal pairs: the same placement with the en-passant marker dropped, one castling right dropped, the clocks changed.
+/// `==` must compare placement, side to move, castling rights and en-passant file (and nothing else), and boards that
+/// compare equal must hash equal (zobrist() and std Hash).
+pub fn pair_lines(out: &mut dyn Write, b: &Board) {
+    use std::hash::{Hash, Hasher};
+    let x = xfen(b);
+    let f: Vec<&str> = x.split(' ').collect();
+    if f.len() != 6 {
+        return;
+    }
+    let mut vars: Vec<String> = Vec::new();
+    if f[3] != "-" {
+        vars.push(format!("{} {} {} - {} {}", f[0], f[1], f[2], f[4], f[5]));
+    }
+    if f[2] != "-" {
+        for (i, _) in f[2].char_indices() {
+            let mut r: String = f[2].to_string();
+            r.remove(i);
+            if r.is_empty() {
+                r = "-".into();
+            }
+            vars.push(format!("{} {} {} {} {} {}", f[0], f[1], r, f[3], f[4], f[5]));
+        }
+    }
+    vars.push(format!("{} {} {} {} 7 {}", f[0], f[1], f[2], f[3], f[5]));
+    vars.push(format!("{} {} {} {} {} 77", f[0], f[1], f[2], f[3], f[4]));
+    let h = |b: &Board| {
+        let mut s = std::collections::hash_map::DefaultHasher::new();
+        b.hash(&mut s);
+        s.finish()
+    };
+    for v in vars {
+        if let Ok(vb) = v.parse::<Board>() {
+            writeln!(out, "PE\t{}\t{}\t{}\t{:x}\t{:x}\t{}", x, xfen(&vb), (*b == vb) as u8, b.zobrist(), vb.zobrist(), (h(b) == h(&vb)) as u8).unwrap();
+        }
+    }
+}
+
 pub fn pos_line(out: &mut dyn Write, b: &Board) {
+    if b.zobrist() % 8 == 0 {
+        pair_lines(out, b);
+    }
     let dv = debug_view(b);
     let legals = sorted_moves(b);
     let disp = b.to_string();
@@ -300,6 +341,13 @@ pub const CORPUS: &[&str] = &[
     "7k/5KQ1/8/8/8/8/8/8 b - - 0 1",
     "k7/2Q5/2K5/8/8/8/8/8 b - - 97 60",
     "4k3/8/8/8/8/8/4R3/4K3 b - - 99 80",
+    // a king (or another man without castling rights of its own) captures a rook on its home square while the right is still set
+    "4k2r/p5K1/8/8/8/8/8/8 w k - 0 1",
+    "r3k3/1K5p/8/8/8/8/8/8 w q - 0 1",
+    "8/8/8/8/8/8/1k6/R3K3 b Q - 3 40",
+    "8/8/8/8/8/8/P5k1/4K2R b K - 3 40",
+    "r3k2r/8/8/8/8/8/6B1/4K3 w kq - 0 1",
+    "4k3/8/8/8/8/8/1p6/R3K2R b KQ - 0 1",
     // extremal move lists: 16 mobile men plus two en-passant capturers = 18 entries (ArrayVec capacity)
     "4k3/8/8/2PpP3/P6P/3P4/1P3PP1/RNBQKBNR w KQ d6 0 1",
     "rnbqkbnr/1p3pp1/3p4/p6p/2pPp3/8/8/4K3 b kq d3 0 1",
@@ -721,6 +769,7 @@ pub fn replay(out: &mut dyn Write, f: &[&str]) {
     };
     match f[0] {
         "PO" => pos_line(out, &b),
+        "PE" => pair_lines(out, &b),
         "LG" => legal_set_line(out, &b),
         "MV" => {
             if let Some(m) = mv_parse(f[2]) {
